@@ -17,6 +17,8 @@ import (
 	"github.com/grailbio/bigmachine"
 	"github.com/grailbio/bigmachine/testsystem"
 	"github.com/grailbio/bigslice"
+	"github.com/grailbio/bigslice/frame"
+	"github.com/grailbio/bigslice/sliceio"
 )
 
 // VerifEncodeInvocation gob-encodes inv exactly as the executor does (bigmachine.go:195-204).
@@ -118,7 +120,6 @@ func VerifMachInfo(m *VerifSliceMachine) (addr string, max, used, health int) {
 	return m.Addr, m.maxTaskProcs, m.taskProcs, int(m.health)
 }
 
-
 // ---- C03: evaluator state
 
 type VerifState = state
@@ -156,3 +157,13 @@ func VerifConsecutiveLost(t *Task) int {
 }
 
 const VerifMaxConsecutiveLost = maxConsecutiveLost
+
+// ---- C17: executor-side readers
+
+// VerifTaskBufferReader builds a taskBuffer from partitions of frames and returns its reader.
+func VerifTaskBufferReader(parts [][]frame.Frame, partition int) sliceio.ReadCloser {
+	return taskBuffer(parts).Reader(partition)
+}
+
+// VerifMultiReader returns the executor's sequential multi-reader (local.go).
+func VerifMultiReader(rs []sliceio.Reader) sliceio.Reader { return &multiReader{q: rs} }
